@@ -274,3 +274,27 @@ Proof.
   all: try match goal with H : cshape _ None _ |- _ => apply cshape_none in H; destruct H as (HH & p & ->); rewrite ?HH; apply sh_batch end.
   all: try match goal with H : e_id ?x = None |- shape _ None (e_id ?x) => rewrite H; apply sh_batch end.
 Qed.
+
+(* ------------------------------------------------------------------ what a locked dispatch section does, for EVERY policy *)
+Lemma disp_lock_spec b oi batch b1 oi' : disp_lock b oi = Some (batch, b1, oi') ->
+  (exists ti tn : bool,
+     batch = (if ti then qi b else []) ++ (if tn then qn b else []) /\
+     qi b1 = (if ti then [] else qi b) /\ qn b1 = (if tn then [] else qn b)) /\
+  (qn b1 <> [] -> hasn b1 = true \/ (hasn b1 = hasn b /\ qn b1 = qn b)) /\
+  (qi b1 <> [] -> hasi b1 = true) /\
+  intr b1 = intr b /\ pol b1 = pol b.
+Proof.
+  unfold disp_lock. destruct (snd oi) as [|ch chs].
+  - unfold disp_default. destruct (qi b) eqn:Ei; [destruct (fst oi); [|destruct (qn b) eqn:En]|];
+    intros H; injection H as <- <- <-; simpl.
+    + split; [exists true, false; simpl; rewrite ?app_nil_r; auto|]. repeat split; auto; congruence.
+    + split; [exists true, true; simpl; rewrite ?app_nil_r; auto|]. repeat split; auto; congruence.
+    + split; [exists true, true; simpl; rewrite ?app_nil_r; auto|]. repeat split; auto; congruence.
+    + split; [exists true, false; simpl; rewrite ?app_nil_r; auto|]. repeat split; auto; congruence.
+  - destruct ((negb (ch_hn ch) && nonempty (if ch_tn ch then [] else qn b))
+              || (negb (ch_hi ch) && nonempty (if ch_ti ch then [] else qi b))) eqn:E; try discriminate.
+    intros H; injection H as <- <- <-; simpl. apply orb_false_iff in E. destruct E as (E1 & E2).
+    split; [exists (ch_ti ch), (ch_tn ch); auto|]. repeat split; auto.
+    + intros Hq. left. destruct (ch_hn ch); auto. simpl in E1. destruct (if ch_tn ch then [] else qn b); simpl in *; congruence.
+    + intros Hq. destruct (ch_hi ch); auto. simpl in E2. destruct (if ch_ti ch then [] else qi b); simpl in *; congruence.
+Qed.
